@@ -165,7 +165,11 @@ func libraryCompress(c *mon.C, msg []byte, level int, resettable bool, endMode i
 	return dst.Bytes(), pattern, nil
 }
 
-func libraryDecompress(c *mon.C, comp []byte, plan xport.Plan, byteReader bool, buf int) ([]byte, error) {
+// reusedReader, when a case sets it, makes libraryDecompress reuse ONE decompression reader through Reset for all
+// the streams of that case (byte-reader and plain sources alternate): a connection-long reader instead of one per message.
+type reusedReader struct{ r *wsflate.Reader }
+
+func libraryDecompress(c *mon.C, comp []byte, plan xport.Plan, byteReader bool, buf int, reuse ...*reusedReader) ([]byte, error) {
 	var src io.Reader
 	ch := xport.NewChunker(comp, plan)
 	if byteReader {
@@ -173,7 +177,17 @@ func libraryDecompress(c *mon.C, comp []byte, plan xport.Plan, byteReader bool, 
 	} else {
 		src = ch
 	}
-	r := wsflate.NewReader(src, func(r io.Reader) wsflate.Decompressor { return flate.NewReader(r) })
+	var r *wsflate.Reader
+	if len(reuse) > 0 && reuse[0] != nil {
+		if reuse[0].r == nil {
+			reuse[0].r = wsflate.NewReader(src, func(r io.Reader) wsflate.Decompressor { return flate.NewReader(r) })
+		} else {
+			reuse[0].r.Reset(src)
+		}
+		r = reuse[0].r
+	} else {
+		r = wsflate.NewReader(src, func(r io.Reader) wsflate.Decompressor { return flate.NewReader(r) })
+	}
 	var out []byte
 	p := make([]byte, buf)
 	if buf == 4095 {
@@ -276,6 +290,10 @@ func subWriterVsZlib() mon.Sub {
 			_ = unused
 			// the library's own reader recovers it too, for any chunking
 			plans := xport.Plans(c.Rng.Int63(), nil)
+			var rr *reusedReader
+			if c.I%3 == 0 {
+				rr = &reusedReader{}
+			}
 			for k := 0; k < 3; k++ {
 				plan := plans[(c.I+k*4)%len(plans)]
 				if len(comp) > 20000 && plan.Kind == "one" {
@@ -283,9 +301,9 @@ func subWriterVsZlib() mon.Sub {
 				}
 				br := (c.I+k)%2 == 0
 				c.Count(1)
-				got, err := libraryDecompress(c, comp, plan, br, []int{1, 7, 512, 32768, 4095 /* = io.Copy */}[(c.I+k)%5])
+				got, err := libraryDecompress(c, comp, plan, br, []int{1, 7, 512, 32768, 4095 /* = io.Copy */}[(c.I+k)%5], rr)
 				if err != nil || !bytes.Equal(got, msg) {
-					det["plan"], det["byte_reader"], det["err"] = plan.String(), br, fmt.Sprint(err)
+					det["plan"], det["byte_reader"], det["err"], det["reader_reused_through_reset"] = plan.String(), br, fmt.Sprint(err), rr != nil
 					c.Fail("self-roundtrip", fmt.Sprintf("decompression reader does not recover the library's own output (err=%v, %d vs %d bytes)", err, len(got), len(msg)), det)
 					return
 				}
@@ -332,6 +350,10 @@ func subZlibVsReader() mon.Sub {
 			comp := raw[:len(raw)-4]
 			det["compressed_len"] = len(comp)
 			plans := xport.Plans(c.Rng.Int63(), nil)
+			var rr *reusedReader
+			if c.I%3 == 0 {
+				rr = &reusedReader{}
+			}
 			for k := 0; k < 4; k++ {
 				plan := plans[(c.I+k*3)%len(plans)]
 				if len(comp) > 20000 && plan.Kind == "one" {
@@ -339,9 +361,9 @@ func subZlibVsReader() mon.Sub {
 				}
 				br := (c.I+k)%2 == 0
 				c.Count(1)
-				got, err := libraryDecompress(c, comp, plan, br, []int{1, 7, 512, 32768, 4095 /* = io.Copy */}[(c.I+k)%5])
+				got, err := libraryDecompress(c, comp, plan, br, []int{1, 7, 512, 32768, 4095 /* = io.Copy */}[(c.I+k)%5], rr)
 				if err != nil || !bytes.Equal(got, msg) {
-					det["plan"], det["byte_reader"], det["err"] = plan.String(), br, fmt.Sprint(err)
+					det["plan"], det["byte_reader"], det["err"], det["reader_reused_through_reset"] = plan.String(), br, fmt.Sprint(err), rr != nil
 					det["first_diff"] = firstDiff(got, msg)
 					c.Fail("reader/zlib-stream", fmt.Sprintf("decompression reader does not recover a zlib sync-flushed stream (err=%v, %d vs %d bytes)", err, len(got), len(msg)), det)
 					return
